@@ -50,12 +50,16 @@ CHECK_DEADLOCK FALSE
 """
 
 PARAMS = {
-    # mc_sessions: bound of the exhaustive TLC run; exh_sessions: histories replayed completely
-    # against every fork table; sample3: sampled (history, table) pairs one session longer;
-    # rnd: seeded long random histories
-    "quick":    dict(mc_sessions=3, exh_sessions=2, sample=6000, rnd=2000, mc_workers=8,
+    # mc_sessions: bound of the exhaustive TLC run.  Replay against the real code:
+    #   all_tables: every exported history up to this many sessions x every exported fork table
+    #   one_fork:   every exported history up to this many sessions x every single-fork table
+    #   sample:     seeded sample of (history, table) pairs with up to sample_sessions sessions
+    #   rnd:        seeded long random histories (6 sessions, 5 blocks, 3 forks, versions -1..3)
+    "quick":    dict(mc_sessions=3, all_tables=1, one_fork=2, sample_sessions=3, sample=16000,
+                     rnd=2000, mc_workers=8,
                      mc_inv="TypeOK PropertyInv CodeDiffClasses DevModelFaithful"),
-    "thorough": dict(mc_sessions=4, exh_sessions=3, sample=40000, rnd=20000, mc_workers=8,
+    "thorough": dict(mc_sessions=4, all_tables=2, one_fork=3, sample_sessions=4, sample=100000,
+                     rnd=20000, mc_workers=16,
                      mc_inv="TypeOK PropertyInv CodeDiffClasses DevModelFaithful FixFaithful "
                             "FixDiffClasses"),
 }
@@ -119,14 +123,23 @@ def build_cases(p, hists, tables, rng):
         cases.append({"id": "%s%d" % (prefix, len(cases)), "forks": table, "hist": hist, "builds": bl})
 
     forced = lambda h: [dict(s, force=True) for s in h]
-    # (a) exhaustive: every exported history up to exh_sessions against every exported table
-    exh = [h for h in hists if len(h) <= p["exh_sessions"]]
-    for t in tables:
-        for h in exh:
+    # (a) exhaustive: short histories against every exported table, longer ones against
+    #     every single-fork table
+    single = [t for t in tables if len(t) == 2]
+    n_hist = 0
+    for h in hists:
+        if len(h) <= p["all_tables"]:
+            ts = tables
+        elif len(h) <= p["one_fork"]:
+            ts = single
+        else:
+            continue
+        n_hist += 1
+        for t in ts:
             add("x", forced(h), t)
     n_exh = len(cases)
-    # (b) sample of the histories one session longer (all of them were exported by TLC too)
-    longer = [h for h in hists if len(h) == p["exh_sessions"] + 1]
+    # (b) seeded sample of the remaining (history, table) pairs exported by TLC
+    longer = [h for h in hists if p["all_tables"] < len(h) <= p["sample_sessions"]]
     for _ in range(p["sample"] if longer else 0):
         add("s", forced(rng.choice(longer)), rng.choice(tables))
     n_sample = len(cases) - n_exh
@@ -153,7 +166,8 @@ def build_cases(p, hists, tables, rng):
         table.sort(key=lambda f: (f["h"], f["m"]))
         add("r", hist, table, [0, 1, 2, 3])
     return cases, dict(exhaustive=n_exh, sampled=n_sample, random=len(cases) - n_exh - n_sample,
-                       histories=len(exh), tables=len(tables))
+                       histories_exhaustive=n_hist, histories_exported=len(hists),
+                       tables=len(tables), single_fork_tables=len(single))
 
 
 # ------------------------------------------------------------------ replay against the real code
@@ -286,14 +300,16 @@ def main():
 
 
 def body(t0, tier, p, rng, work):
-    binary = vlib.go_build("c19", "c19")
+    # osusergo: LXRHash locates its table through os/user; with this tag $HOME (set to a scratch
+    # directory by the harness) is honoured instead of the real home directory
+    binary = vlib.go_build("c19", "c19", tags="verif,osusergo")
 
     # model checking runs beside export / replay
     mcres = {}
     th = threading.Thread(target=run_mc, args=(p, mcres))
     th.start()
     try:
-        hists, tables, rexp = export(p["exh_sessions"] + 1)
+        hists, tables, rexp = export(p["sample_sessions"])
         cases, counts = build_cases(p, hists, tables, rng)
         t1 = time.time()
         obs = replay(binary, cases, work)
